@@ -345,19 +345,21 @@ class Ctx:
         return [f["tag"] for f in self.known_findings()
                 if f.get("status") == "open" and (prop is None or f.get("property") == prop)]
 
-    def deviations(self, prefix=None):
-        """TLA+ set text of the open deviation tags (all properties; specs ignore foreign tags)."""
-        tags = sorted(set(t for t in self.open_tags() if prefix is None or t.startswith(prefix)))
+    def deviations(self, prefix=None, props=None):
+        """TLA+ set text of the open deviation tags, filtered by tag prefix and/or property ids."""
+        tags = sorted(set(f["tag"] for f in self.known_findings()
+                          if f.get("status") == "open" and (prefix is None or f["tag"].startswith(prefix))
+                          and (props is None or f.get("property") in props)))
         return "{" + ", ".join('"%s"' % t for t in tags) + "}"
 
     def finding(self, tag, witness, replay_src=None, prop=None):
-        """A property violation attributed to deviation `tag`."""
-        prop = prop or self.prop
+        """A property violation attributed to deviation `tag`.  Listed as open (under whatever
+        property the finding belongs to) => KNOWN-FINDING, otherwise VIOLATION."""
         for f in self.known_findings():
-            if f.get("status") == "open" and f.get("tag") == tag and f.get("property") == prop:
+            if f.get("status") == "open" and f.get("tag") == tag:
                 if tag not in self.findings_seen:
                     self.findings_seen[tag] = 0
-                    print("KNOWN-FINDING: property=%s %s %s" % (prop, tag, f.get("what", "")), flush=True)
+                    print("KNOWN-FINDING: property=%s %s %s" % (f.get("property"), tag, f.get("what", "")), flush=True)
                 self.findings_seen[tag] += 1
                 return True
         self.violation(replay_src, "unlisted deviation %s: %s" % (tag, json.dumps(witness)[:600]), data=witness)
